@@ -273,7 +273,9 @@ func (b *compactBook) merged(f kvFam) (keys, maxFiles int) {
 }
 
 // flushCyclesWithNewNames: completed metadata flushes which wrote new names since the family was compacted last.
-func (b *compactBook) flushesSince(f kvFam) int { return b.flushes[f.store] - b.compactedAt[f.String()] }
+func (b *compactBook) flushesSince(f kvFam) int {
+	return b.flushes[f.store] - b.compactedAt[f.String()]
+}
 
 // ---- operations of the history ------------------------------------------------------------------------
 
@@ -396,10 +398,11 @@ func (w *world) opNamesAndFlushCycle() {
 // postEnv is the recovered node of one image as the continuation sees it.
 type postEnv struct {
 	p        crash.Point
-	root     string // data directory of the database in the image
+	dir      string // directory the current generation of the node runs on (the image; after a shutdown with an I/O fault a copy of what was left)
+	root     string // data directory of the database below dir
 	node     func() *node.Node
 	query    func(q string) (node.Result, error)
-	restart  func()
+	restart  func(plan *sdPlan, unloggedRows int) // plan: I/O fault of the shutdown (nil = none)
 	visible  func(i int) bool
 	hasSum   bool
 	sum      float64 // the sum cell after the recovery
@@ -494,6 +497,8 @@ func (w *world) postRecovery(env *postEnv) (classes []string) {
 	}
 	// the rows the recovered node must show (entries of the recovered logs) / may show (every entry of the history)
 	var must, may []mrow
+	var volatile []int // rows of must written after the recovery (without a log) which no completed flush / clean shutdown covers yet
+	lossy := false     // a shutdown with an I/O fault has happened
 	ownerSet := map[int]bool{}
 	for i, e := range w.entries {
 		if w.bad(i) {
@@ -546,10 +551,14 @@ func (w *world) postRecovery(env *postEnv) (classes []string) {
 		}
 		for _, q := range queries {
 			res, err := env.query(q.sql())
+			lo, hi := q.eval(must), q.eval(may)
+			if err != nil && lossy && len(lo) == 0 {
+				// only rows which a shutdown with an I/O fault may have lost match the query: their names need not exist
+				continue
+			}
 			if err != nil {
 				fatalf("%s: %s: query %q fails: %v", stage, q.what, q.sql(), err)
 			}
-			lo, hi := q.eval(must), q.eval(may)
 			for k, fields := range lo {
 				for f, pts := range fields {
 					for ts, v := range pts {
@@ -581,6 +590,7 @@ func (w *world) postRecovery(env *postEnv) (classes []string) {
 			if err := env.node().FlushDB(w.db); err != nil {
 				fatalf("flush cycle: %v", err)
 			}
+			volatile = nil
 		case "compact":
 			ran := w.postCompact(env, &hist, fatalf)
 			if ran > 0 {
@@ -630,6 +640,7 @@ func (w *world) postRecovery(env *postEnv) (classes []string) {
 					mr.tags[kvp[0]] = kvp[1]
 					q.group = append(q.group, kvp[0])
 				}
+				volatile = append(volatile, len(must))
 				must, may = append(must, mr), append(may, mr)
 				addQuery(q)
 				m := &protoMetricsV1.Metric{Namespace: r.ns, Name: r.metric, Timestamp: r.ts,
@@ -656,13 +667,39 @@ func (w *world) postRecovery(env *postEnv) (classes []string) {
 			dirty = true
 			check("after the write of new names")
 		case "restart":
-			hist = append(hist, "restart")
-			env.restart()
+			_, _, restartFaultPct := w.shutdownOdds()
+			plan := drawShutdownPlan(t, restartFaultPct)
+			stage := "after a graceful restart"
+			if plan == nil {
+				hist = append(hist, "restart")
+			} else {
+				hist = append(hist, "restart (shutdown with "+plan.String()+")")
+				stage = "after a restart whose shutdown had an " + plan.String()
+				classes = append(classes, "post-recovery-restart-with-io-fault-in-the-shutdown")
+				if len(volatile) > 0 {
+					// rows which reached the family without a log and are in no flushed data may be lost
+					drop := map[int]bool{}
+					for _, i := range volatile {
+						drop[i] = true
+					}
+					var kept []mrow
+					for i, r := range must {
+						if !drop[i] {
+							kept = append(kept, r)
+						}
+					}
+					must = kept
+					classes = append(classes, "post-recovery-unlogged-rows-may-be-lost-by-the-faulty-shutdown")
+				}
+				lossy = true
+			}
+			env.restart(plan, len(volatile))
+			volatile = nil
 			if dirty {
 				coldAfter = true
 			}
 			dirty = false
-			check("after a graceful restart")
+			check(stage)
 		}
 	}
 	check("at the end")
@@ -734,15 +771,34 @@ func (w *world) restartRecovered(p crash.Point, n **node.Node, walMgr *replica.W
 	(*n).Close()
 	_ = (*walMgr).Close()
 	*walMgr = nil
+	w.startRecovered(p, n, walMgr, imgs, describe)
+}
+
+// startRecovered starts the next generation of a recovered node on p.Dir (engine, WAL recovery) and returns
+// when the replay is over.
+func (w *world) startRecovered(p crash.Point, n **node.Node, walMgr *replica.WriteAheadLogManager, imgs []*logImage, describe func() string) {
 	replica.NewPartitionFn = replica.NewPartition
+	var drain func(limit int) bool
+	if w.flw != nil {
+		// a log with a follower group: the follower is not reachable, the harness steps the local replicators
+		var release func()
+		drain, release = w.holdPartitions()
+		defer release()
+	}
 	nn, err := node.Start(p.Dir)
 	if err != nil {
 		w.fatalf("image %s: the recovered node cannot be restarted: %v", p, err)
 	}
 	*n = nn
-	*walMgr = replica.NewWriteAheadLogManager(context.Background(), config.GlobalStorageConfig().WAL, nodeID, nn.Engine, nil, nil)
+	*walMgr = replica.NewWriteAheadLogManager(context.Background(), config.GlobalStorageConfig().WAL, nodeID, nn.Engine, recoveryCliFct(), flwStateMgr{})
 	if err := (*walMgr).Recovery(); err != nil {
 		w.fatalf("image %s: WAL recovery at the restart of the recovered node: %v", p, err)
+	}
+	if drain != nil {
+		if !drain(4 * maxEntries) {
+			w.fatalf("image %s: restart of the recovered node: replay does not finish;%s", p, describe())
+		}
+		return
 	}
 	shard, err := nn.Shard(w.db, 0)
 	if err != nil {
